@@ -258,7 +258,76 @@ def run(run: common.Run):
         per_image[key] = cur
         run.sample(dict(case={k: v for k, v in case.items()}, first_row={k: (float(v) if isinstance(v, (int, float)) else v)
                                                                           for k, v in st[0].items()}), 3)
+    data_window_leg(run, jobs)
     cli_json(run, jobs)
+
+
+class _ReadRecorder:
+    """pass-through proxy of the open parameter dataset that records the (band, tile corner) of every `read`"""
+
+    def __init__(self, ds, log):
+        self.__dict__['_ds'], self.__dict__['_log'] = ds, log
+
+    def __getattr__(self, name):
+        return getattr(self._ds, name)
+
+    def read(self, *args, **kwargs):
+        w = kwargs.get('window')
+        self._log.append((kwargs.get('indexes'), int(w.row_off), int(w.col_off)))
+        return self._ds.read(*args, **kwargs)
+
+
+def data_window_leg(run, jobs):
+    """the valid-data window pre-pass and the tiles stats() reads, against Model/StatsWindow.lean (Props/StatsWindow.lean:
+    `no_valid_pixel_skipped`): same window, same tiles of every band, for the real files of this run"""
+    import rasterio as rio
+    from homonim import ParamStats
+    todo, lines = [], []
+    for case, p, model, thresh in jobs:
+        with rio.open(p) as ds:
+            masks = ds.read_masks() > 0
+            th, tw = ds.block_shapes[0]
+            H, W = ds.height, ds.width
+        if H * W * masks.shape[0] > 60000:
+            continue
+        order = 'r' if case['i'] % 2 else 'f'
+        lines.append(f'datawin {H} {W} {min(th, H)} {min(tw, W)} {order} ' +
+                     ' '.join(''.join('1' if v else '0' for v in m.ravel()) for m in masks))
+        todo.append((case, p, masks.shape[0], lines[-1][:200]))
+    replies = common.model_batch(lines)
+    if replies is None:
+        run.model_available = False
+        return
+    for (case, p, nb, line), rep in zip(todo, replies):
+        c = dict(case, op='data-window')
+        win_txt, _, tiles_txt = rep.partition(' | ')
+        want_tiles = sorted(tuple(int(x) for x in t.split(':')) for t in tiles_txt.split())
+        log = []
+        try:
+            with warnings.catch_warnings():
+                warnings.simplefilter('ignore')
+                with ParamStats(p) as ps:
+                    w = ps._get_data_window(threads=case['threads'])
+                    ps._param_im = _ReadRecorder(ps._param_im, log)
+                    try:
+                        ps.stats(threads=case['threads'])
+                    finally:
+                        ps._param_im = ps._param_im._ds
+        except Exception as ex:
+            run.fail(c, f'ParamStats raised {type(ex).__name__}: {str(ex)[:120]}', signature=dict(kind='stats-raises', op='data-window'))
+            continue
+        run.evaluations += 1
+        run.lines_compared += 1
+        run.hist['data-window legs'] += 1
+        got = 'none' if w is None else f'{int(w.row_off)} {int(w.col_off)} {int(w.height)} {int(w.width)}'
+        if got != win_txt:
+            run.disagree(c, line, win_txt, got, 'valid-data window of _get_data_window')
+            continue
+        for b in range(nb):
+            got_tiles = sorted((r, c_) for bi, r, c_ in log if bi == b + 1)
+            if got_tiles != want_tiles:
+                run.disagree(c, line, str(want_tiles[:8]), str(got_tiles[:8]), f'tiles of band {b + 1} read by stats(): {len(got_tiles)} read, model {len(want_tiles)}')
+                break
 
 
 def cli_json(run, jobs):
